@@ -101,6 +101,27 @@ fn response_vol(order: usize, stage: usize, log_gain: bool, alpha: f64, beta: f6
     }
 }
 
+/// One pulse followed by `n` samples of silence in frames of 80 samples (constant parameters): (peak of the first 2000 samples,
+/// largest magnitude in the last tenth, all finite). An instability that starts from rounding noise needs thousands of samples
+/// to show.
+fn long_response(order: usize, stage: usize, alpha: f64, beta: f64, params: &[f64], n: usize) -> Result<(f64, f64, bool), String> {
+    let p = params.to_vec();
+    catch(move || {
+        let fp = 80usize;
+        let rate = 20 * (n + fp);
+        let mut v = Vocoder::new(order + 1, 0, stage, false, rate, alpha, beta, 1.0, fp);
+        let mut out = Vec::with_capacity(n);
+        let mut buf = vec![0.0; fp];
+        while out.len() < n {
+            v.synthesize(20f64.ln(), &p, &[], &mut buf);
+            out.extend_from_slice(&buf);
+        }
+        let head = out[..2000.min(out.len())].iter().fold(0.0f64, |a, b| a.max(b.abs()));
+        let tail = out[out.len() - out.len() / 10..].iter().fold(0.0f64, |a, b| a.max(b.abs()));
+        (head, tail, out.iter().all(|x| x.is_finite()))
+    })
+}
+
 pub fn run(tier: Tier) -> i32 {
     let rep = Report::new("C13", tier, "model_checking");
     let nfreq = tier.pick(33usize, 129usize);
@@ -108,7 +129,7 @@ pub fn run(tier: Tier) -> i32 {
     let orders: Vec<usize> = tier.pick((2..=24).filter(|o| *o <= 8 || o % 4 == 0 || *o == 23).collect(), (2..=24).collect());
     let stages: &[usize] = &[1, 2, 3, 4];
     let alphas = [0.0, 0.3, 0.6];
-    rep.set_rule("SCOPE: LSP orders x stages 1..4 x alpha {0,.3,.6} x {linear, log} gain x K {0.5,1,2}; LSP sets = all compositions of the order+1 gaps from {1,2,4} units (orders up to the full bound) or uniform + every single gap narrowed/widened (larger orders), plus for every order the two sets whose first (last) two gaps have the smallest legal spacing, all with spacing >= pi/(4(order+1)); real Vocoder pulse responses of the first and the second frame at F0=20Hz, and on every 5th case the 3rd/4th frame after a first frame with another gain (same frequencies) or with other frequencies; plus every stage 5..128 once (vocoder output volume 1, 2 or 1/4; orders 2..4, a mildly uneven LSP set whose spectrum stays measurable after the power s); plus one thread visiting orders 24,3,23,2,16,5,.. in turn; plus vocoders cloned in the middle of a 7-frame run compared bit for bit with the original; oracle ln K - s ln|A(e^{jw~})| within 0.001 Np at grid frequencies within 100 dB of the peak, response finite and decaying; distinct = (order, stage, alpha, gain form, K, LSP set)");
+    rep.set_rule("SCOPE: LSP orders x stages 1..4 x alpha {0,.3,.6} x {linear, log} gain x K {0.5,1,2}; LSP sets = all compositions of the order+1 gaps from {1,2,4} units (orders up to the full bound) or uniform + every single gap narrowed/widened (larger orders), plus for every order the two sets whose first (last) two gaps have the smallest legal spacing, all with spacing >= pi/(4(order+1)); real Vocoder pulse responses of the first and the second frame at F0=20Hz, and on every 5th case the 3rd/4th frame after a first frame with another gain (same frequencies) or with other frequencies; plus finiteness and decay with the LSP postfilter on (beta 1e-200..1, orders 3, 4, 10, 24, incl. the closest legal pairs); plus every stage 5..128 once (vocoder output volume 1, 2 or 1/4; orders 2..4, a mildly uneven LSP set whose spectrum stays measurable after the power s); plus one thread visiting orders 24,3,23,2,16,5,.. in turn; plus vocoders cloned in the middle of a 7-frame run compared bit for bit with the original; oracle ln K - s ln|A(e^{jw~})| within 0.001 Np at grid frequencies within 100 dB of the peak, response finite and decaying; distinct = (order, stage, alpha, gain form, K, LSP set)");
     rep.assume("LSP sets on the gap lattice only; nominal rate raised (8k..8M) only to lengthen T0 until the truncated tail is < 1e-9 of the peak");
     let mut cases: Vec<(usize, usize, f64, bool, f64, Vec<f64>)> = Vec::new();
     for &order in &orders {
@@ -231,6 +252,75 @@ pub fn run(tier: Tier) -> i32 {
             }
         }
     });
+    // with the LSP postfilter on (beta > 0; it moves the frequencies, so only the last clause applies): increasing,
+    // well-separated frequencies still give a finite, decaying response - for every LSP set of the orders below incl. the ones
+    // with the closest legal pairs, and betas from 1e-200 to 1; one pulse followed through 32000 samples
+    {
+        let betas = [1e-200, 1e-9, 0.05, 0.2, 0.3, 0.45, 0.8, 1.0];
+        let mut jobs: Vec<(usize, usize, f64, Vec<f64>)> = Vec::new();
+        for &order in &[3usize, 4, 10, 24] {
+            for (si, set) in lsp_sets(order, tier.pick(3, 4)).into_iter().enumerate() {
+                for (bi, &beta) in betas.iter().enumerate() {
+                    if order > 4 && (si + bi) % 3 != 0 {
+                        continue;
+                    }
+                    jobs.push((order, 1 + (si + bi) % 3, beta, set.clone()));
+                }
+            }
+        }
+        // a close pair (the smallest legal spacing class: one gap of 1 unit) between wide gaps (4 units), at every interior
+        // position; and two such pairs at once
+        for &order in &[4usize, 6, 10, 24] {
+            for k in 1..order {
+                let mut gaps = vec![4.0; order + 1];
+                gaps[k] = 1.0;
+                if order >= 10 && k + 3 < order {
+                    gaps[k + 3] = 1.0;
+                }
+                let total: f64 = gaps.iter().sum();
+                let mut acc = 0.0;
+                let set: Vec<f64> = (0..order).map(|i| { acc += gaps[i]; PI * acc / total }).collect();
+                for (bi, &beta) in betas.iter().enumerate() {
+                    if order > 6 && (k + bi) % 2 != 0 {
+                        continue;
+                    }
+                    jobs.push((order, 1 + (k + bi) % 2, beta, set.clone()));
+                }
+            }
+        }
+        // two formants (pairs 0.08 apart) between gaps of 0.3..0.47, order 10
+        for &beta in &betas {
+            jobs.push((10, 2, beta, vec![0.20, 0.62, 0.70, 1.15, 1.45, 1.53, 2.00, 2.30, 2.60, 2.90]));
+        }
+        let n_beta = AtomicU64::new(0);
+        let pf_worst = Mutex::new((0.0f64, String::new()));
+        rep.par_for(jobs.len(), 4, "C13 postfilter", |i| {
+            let (order, stage, beta, set) = &jobs[i];
+            let mut params = vec![1.0];
+            params.extend(set.iter());
+            rep.eval(1);
+            rep.cmp(1);
+            n_beta.fetch_add(1, Ordering::Relaxed);
+            let alpha = if i % 2 == 0 { 0.0 } else { 0.42 };
+            let rp = json!({"order": order, "stage": stage, "alpha": alpha, "log_gain": false, "beta": format!("{:e}", beta), "params_gain_then_lsp": params, "f0_hz": 20});
+            match long_response(*order, *stage, alpha, *beta, &params, 32_000) {
+                Err(p) => rep.violation(format!("panic@{}", site_of(&p)), p, rp),
+                Ok((peak, last, finite)) => {
+                    let tail = if finite { last / peak.max(1e-300) } else { f64::NAN };
+                    {
+                        let mut w = pf_worst.lock().unwrap();
+                        if tail > w.0 || tail.is_nan() {
+                            *w = (tail, format!("order {} stage {} beta {:e}", order, stage, beta));
+                        }
+                    }
+                    if tail.is_nan() || !peak.is_finite() || tail > 1e-2 {
+                        rep.violation("diverges-with-postfilter", format!("LSP postfilter beta {:e} (order {}, stage {}): the response to increasing, well-separated frequencies is not finite or does not decay (peak {:e}, tail {:e})", beta, order, stage, peak, tail), rp);
+                    }
+                }
+            }
+        });
+        rep.note("postfilter_cases", json!({"cases": n_beta.load(Ordering::Relaxed), "worst_tail_to_peak": pf_worst.lock().unwrap().0, "at": pf_worst.lock().unwrap().1}));
+    }
     // stages beyond the enumerated 1..4 (the statement covers every s >= 1): each stage 5..128 once, low orders, mildly
     // uneven LSP sets
     {
